@@ -35,11 +35,13 @@ pub struct Sc {
     pub ex: Exec,
     pub viols: Vec<(String, String)>,
     pub stats: BTreeMap<String, u64>,
+    /// the two split keys of the last pair built by `quick_pair` (initiator's sending key, responder's sending key)
+    pub raw_keys: Option<([u8; 32], [u8; 32])>,
 }
 
 impl Sc {
     pub fn new() -> Self {
-        Sc { ex: Exec::new(), viols: Vec::new(), stats: BTreeMap::new() }
+        Sc { ex: Exec::new(), viols: Vec::new(), stats: BTreeMap::new(), raw_keys: None }
     }
     pub fn viol(&mut self, prop: &str, what: String) {
         self.viols.push((prop.to_string(), what));
